@@ -213,7 +213,7 @@ pub fn run_scenario(scn: &Scn, seen: &mut Seen) -> Outcome {
     verif::set_failpoints(&[], 0);
     verif::start_recording();
     let cfg = ServerCfg { workers: scn.workers, limit: scn.limit, listeners: vec![LKind::Tcp], rt: scn.rt, shutdown_timeout: 1, backlog: 128 };
-    let mut run = match engine::start(&cfg, |_| {}) {
+    let mut run = match engine::start(&cfg, |ctls| ctls[0].inner.lock().unwrap().keep_wakers = true) {
         Ok(r) => r,
         Err(e) => return Outcome::Inconclusive(e),
     };
